@@ -478,10 +478,9 @@ where
             if !inner_html.is_empty() {
                 buffer.push_sync(&inner_html);
             } else if Ch::EXISTS {
-                if escapes_content_as_text::<E>() {
-                    // asynchronous children are streamed in, in order (there are no
-                    // comment nodes in a `<textarea>` that could mark a place to fill in
-                    // later), and everything is escaped, whenever it arrives
+                if escapes_content_as_text::<E>() && !OUT_OF_ORDER {
+                    // asynchronous children are streamed in, and everything is
+                    // escaped, whenever it arrives
                     let mark = buffer.mark();
                     self.children.to_html_async_with_buf::<false>(
                         buffer,
@@ -491,6 +490,19 @@ where
                         vec![],
                     );
                     buffer.escape_text_since(mark);
+                } else if escapes_content_as_text::<E>() {
+                    // there are no comment nodes in a `<textarea>` that could mark a
+                    // place to fill in later, and an out-of-order chunk cannot contain
+                    // in-order ones: only what is ready now is rendered
+                    let mut content = String::new();
+                    self.children.to_html_with_buf(
+                        &mut content,
+                        position,
+                        false,
+                        mark_branches,
+                        vec![],
+                    );
+                    buffer.push_sync(&html_escape::encode_text(&content));
                 } else {
                     self.children.to_html_async_with_buf::<OUT_OF_ORDER>(
                         buffer,
